@@ -57,7 +57,7 @@ IdTag(r) == IF r.ty = "goErr" /\ r.a # <<>> THEN r.a[1][1] ELSE "ID_"
 
 SaysIs(c, r) ==
   CASE c.ty = "errno"     -> IdTag(r) = ErrnoClass(c.a[1][1])
-    [] c.ty = "uIsLeaf"   -> ~IsNil(r) /\ Text(r) = c.a[1]       \* value-comparing Is method
+    [] c.ty \in {"uIsLeaf", "uMultiIs"} -> ~IsNil(r) /\ Text(r) = c.a[1]       \* value-comparing Is method
     [] c.ty = "uIsIdLeaf" -> IdTag(r) = "ID_user"                \* identity-comparing Is method
     [] OTHER -> FALSE
 
